@@ -31,7 +31,7 @@ CHECKS.update({
     "C01": {"technique": "TLA+ mechanism spec V2Match (candidate stage as built) model-checked and replayed stage by stage into the real functions + recorded Match histories validated by TLC against V2Contract (PlantedFound); plants positioned by white-box tokenisation",
             "text": "Every corpus document (all at 0.8, samples at 0.7/0.75/0.9/1.0, plus user documents of q, q+1, 2q words) is planted 1-3 at a time between out-of-vocabulary blocks; TLC accepts the recorded history only if every plant has a match with its type and name, confidence bit-equal to 1.0 and exactly the planted token span and lines.",
             "note": "real documents sampled per threshold; OOV words verified white-box; the candidate stage is an explicit TLC model (V2Match) replayed into the real stage functions on every small pair, the scoring stage is an environment."},
-    "C02": {"technique": "TLC lemma (EditLemma: cost of any valid script >= Levenshtein) + per-call validation of the library's edit script recorded through the score hook (TraceV2 ScoreOK/Scored)",
+    "C02": {"technique": "TLC lemma (EditLemma: cost of any valid script >= Levenshtein) + TLA+ spec V2Score (diffRange / scoreDiffs as built) model-checked and replayed script by script into the real functions + per-call validation of the library's edit script recorded through the score hook (TraceV2 ScoreOK/Scored)",
             "text": "TLC proves the lemma exhaustively on small sequences; on real inputs every score() call is an event with the script and both token sequences, TLC checks validity, dist = Cost(script), the trimmed prefix/suffix, and that each reported match is backed by such a call with bit-equal confidence, span and lines.",
             "note": "go-diff is an environment whose output is checked per call; sampled inputs."},
     "C03": {"technique": "recorded Match histories validated by TLC against V2Contract.WellFormed",
